@@ -445,13 +445,13 @@ class BzrGitMapping(foreign.VcsMapping):
                 "utf-8", "surrogateescape"
             )
         if "git-missing-message" in rev.properties:
-            if commit.message != "":
+            if rev.message != "":
                 raise AssertionError("git-missing-message set but message is not empty")
             commit.message = None
         else:
             commit.message = self._encode_commit_message(rev, rev.message, encoding)
-        if not isinstance(commit.message, bytes):
-            raise TypeError(commit.message)
+            if not isinstance(commit.message, bytes):
+                raise TypeError(commit.message)
         if metadata is not None:
             try:
                 mapping_registry.parse_revision_id(rev.revision_id)
@@ -476,7 +476,7 @@ class BzrGitMapping(foreign.VcsMapping):
                 commit.message = inject_bzr_metadata(commit.message, metadata, encoding)
             else:
                 raise NoPushSupport(None, None, self, revision_id=rev.revision_id)
-        if not isinstance(commit.message, bytes):
+        if commit.message is not None and not isinstance(commit.message, bytes):
             raise TypeError(commit.message)
         i = 0
         propname = "git-mergetag-0"
